@@ -6,6 +6,12 @@ COMMON_TRUST = [
 ]
 CODEC_RULE = "every message type x decoding parameter (Prio3 Count/Sum/Histogram/SumVec with 2-5 aggregators, Poplar1 with several bit lengths incl. 0, Prio2, ping-pong, primitives): honest encodings from real protocol runs, truncations, extensions, single-byte mutations, every alphabet value in first/last byte, all strings of length <= 2-3 over {00,01,7f,80,fe,ff}, header extremes (level 0xFFFF, counts 2^32-1, unknown tags), random strings; non-trivial = every case (each is a decode of a distinct byte string);"
 PROPS = {
+    "C16": {
+        "modules": ["PrioProofs.Props.C16"],
+        "rule": "constructors of Sum, Average, Histogram, MultihotCountVec, SumVec, L1BoundSum over Field64 and Field128 on the argument lattice {0,1,2,3,8,1000,2^32-2,2^32-1,2^32,2^63-1,2^63,usize::MAX-1,usize::MAX} (thorough: 26 values incl. random ones; full cube for the 3-parameter constructors) x integer bounds {0,1,2,3,255,256,p-2,p-1,p,p+1,MAX}; accepted small instances must prove and verify their extreme measurements; encode_measurement on in-range, boundary, out-of-range and wrong-length measurements; Prio3::new on (aggregators, proofs) incl. 0, 254, 255; Prio2::new on 24 (thorough 64) lengths up to usize::MAX; Prio3 verify_init / verifier_shares_to_message / verify_next on hand-built leader shares (measurement or proofs empty, short, long, one proof of many), missing or unexpected blinds and parts, shares, states and messages of an instance with the opposite joint-randomness use, aggregator ids up to usize::MAX, share counts 0..512+n incl. 256+n; Prio2, Poplar1 (zero bits, wrong heights, levels beyond the tree, depth 40000) and DP constructors by oracle; non-trivial = all;",
+        "trusted": COMMON_TRUST + ["XOF expansion terminating and FLP query/decide not panicking are hypotheses of the Prio3 no-panic theorems (C05/C11 cover them by correspondence)"],
+        "assumptions": ["allocation-proportional operations are exercised only below a memory budget (instances up to 2048 inputs, Poplar1 up to 40000 bits)", "Poplar1/Prio2 protocol operations and DP constructors: oracle only"],
+    },
     "C01": {
         "modules": ["PrioProofs.Props.C01"],
         "rule": "Prio3 over a recording XOF (every XOF invocation's key and output is recorded and the model recomputes the whole step from that table): Count, Sum at bit-width edges (incl. a 34-bit bound), Histogram with dividing / non-dividing / oversize chunks, SumVec, MultihotCountVec, L1BoundSum x (aggregators, proofs) in {(2,1),(3,1),(5,2),(2,3)}; every message passes through its wire codec; batches of 5 (thorough 24) valid measurements incl. the extremes, sharded, verified by all aggregators, aggregated and unsharded; non-trivial = all;",
